@@ -9,7 +9,7 @@ from __future__ import annotations
 from dataclasses import dataclass, field
 from typing import Callable, Dict, List, Optional, Tuple
 
-from . import bd, bw, cc, er, ev, ex, fs, fw, ha, hx, hy, hz, lk, on, oo, rd, rt, sh, st, vw, wk
+from . import bd, bw, bx, cc, er, ev, ex, fs, fw, ha, hx, hy, hz, lk, on, oo, rd, rt, sh, st, vw, wk
 
 
 @dataclass
@@ -95,8 +95,8 @@ RULE_GROUPS: Dict[str, Callable] = {
     'ev.node_events': ev.rule_node_events,
     'ev.emit_all': ev.rule_emit_all,
     'bd.marks': bd.rule_marks,
-    'bd.edges': bd.rule_edges,
-    'bd.constructs': bd.rule_constructs,
+    'bd.edges': bx.rule_constructs_by_worlds,
+    'bd.constructs': bx.rule_constructs_by_worlds,
     'bd.node_map_and_validation': bd.rule_node_map_and_validation,
     'bd.builder_effects': bd.rule_builder_effects,
     'on.publish_atomic': on.rule_publish_atomic,
@@ -141,6 +141,8 @@ RULE_GROUPS: Dict[str, Callable] = {
     'bw.build_node': bw.rule_build_node,
     'bw.recurrent_validations': bw.rule_recurrent_validations,
     'ha.active_mark_released': ha.rule_active_mark_released,
+    'ha.task_registry_only_grows': ha.rule_task_registry_only_grows,
+    'ha.executor_wrapper_transparent': ha.rule_executor_wrapper_transparent,
     'ha.error_scan_is_the_subdag': ha.rule_error_scan_is_the_subdag,
     'ha.test_and_create_atomic': ha.rule_test_and_create_atomic,
     'ha.no_process_wide_registry': ha.rule_no_process_wide_registry,
@@ -243,6 +245,8 @@ RULES: Dict[str, Tuple[str, str]] = {
     'SH-10': ('ha.no_process_wide_registry', 'no look-up in a process-wide registry (asyncio.all_tasks ...) on the run path'),
     'FS-10': ('ha.test_and_create_atomic', 'no suspension point between the existence test of save and the creation of the file'),
     'OO-12': ('ha.error_scan_is_the_subdag', 'the error scan of a sub-dag answers for exactly the nodes of that sub-dag'),
+    'ER-11': ('ha.task_registry_only_grows', 'the registry of created tasks, which run() scans for failures, is only added to during a run'),
+    'EX-13': ('ha.executor_wrapper_transparent', 'the pool wrapper re-raises what a body raised unchanged (StopIteration aside)'),
     'OO-11': ('oo.candidate_started_lazily', 'the registry of started one-of candidates is only added to during a run'),
     'OO-10': ('oo.candidate_started_lazily', 'a one-of candidate is recorded as started only in the iteration of the candidate loop that starts it'),
     'RD-9': ('st.ready_covers_delivered_inputs', 'in a plain scope readiness waits for every predecessor that delivers a parameter, also outside the sub-dag being run'),
@@ -704,6 +708,10 @@ _add('C03', 'RD-10')
 _add('C02', 'ER-9')
 _add('C03', 'SW-4')
 _add('C10', 'OO-11')
+_add('C02', 'ER-11')
+_add('C05', 'ER-11', 'OO-4')
+_add('C12', 'EX-13')
+_add('C17', 'EX-13', 'RD-7')
 _add('C10', 'OO-12')
 _add('C05', 'OO-12')
 _add('C18', 'FS-10')
